@@ -231,6 +231,13 @@ def prioLt : Prio → Prio → Bool
 """
 
 
+
+def _stub(name, ns, sites):
+    """a translation site failed: do not leave the file of an EARLIER tree on disk; the stub has no definitions, so every bridge
+    that needs them fails to build and the build log talks about THIS tree"""
+    bad = "; ".join(f"{s['site']}: {str(s.get('detail'))[:160]}" for s in sites if not s["ok"]).replace("-/", "- /")
+    T.write_generated(name, f"/- TRANSLATION FAILED on the current source tree, no definitions emitted.\n{bad}\n-/\nnamespace {ns}\nend {ns}\n")
+
 def translate():
     sites = []
     out = {}
@@ -258,4 +265,6 @@ def translate():
     if ok:
         body = "\n".join(out["sp"] + out["set"] + out["lt"]) + "\nend Mouette.Generated.C09\n"
         T.write_generated("C09Loop", body, HEADER)
+    else:
+        _stub("C09Loop", "Mouette.Generated.C09", sites)
     return sites
